@@ -273,6 +273,15 @@ pub struct OracleCfg {
     pub buffers: bool,
     #[serde(default)]
     pub spectator_stream: bool,
+    /// handshake accounting against the reference model (which replies match)
+    #[serde(default = "yes")]
+    pub lifecycle: bool,
+    /// two healthy sessions that merely poll must never see NetworkInterrupted
+    #[serde(default)]
+    pub no_interrupted_events: bool,
+    /// also compare NetworkInterrupted / NetworkResumed / Disconnected with the timer model, poll by poll
+    #[serde(default)]
+    pub lifecycle_timing: bool,
 }
 
 fn yes() -> bool {
@@ -291,6 +300,9 @@ impl Default for OracleCfg {
             no_desync_events: false,
             buffers: true,
             spectator_stream: true,
+            lifecycle: true,
+            no_interrupted_events: false,
+            lifecycle_timing: false,
         }
     }
 }
@@ -304,6 +316,15 @@ pub struct Liveness {
     pub heal_us: u64,
     pub deadline_us: u64,
     pub min_frames: i32,
+    /// sessions that never got Running are a violation (false: they are skipped)
+    #[serde(default = "yes")]
+    pub require_running: bool,
+    /// nodes the demand applies to (empty: all nodes that are alive)
+    #[serde(default)]
+    pub nodes: Vec<usize>,
+    /// also demand that spectators with catchup_speed >= 2 are back within max_frames_behind
+    #[serde(default = "yes")]
+    pub spectator_lag: bool,
 }
 
 impl Plan {
